@@ -406,23 +406,32 @@ def handle : Handler := fun op inp impl =>
     if codec != "proto" then
       { agree := holdsCore && (accepted || cls == "malformed"), holds := holdsCore, nontrivial := kind != "valid", cls := "bad:" ++ codec ++ ":" ++ kind,
         why := if holdsCore then "" else s!"strict {codec} codec on {kind} input {hex data}: outcome {cls}, but the library says parses={parses}, unknown fields={unkAny}" } else
-    -- binary: the model of the top-level walk, with the library's verdict on the contents of known fields
-    let m := ProtoWire.strictTop known data
-    let walkOk := (ProtoWire.fields data).isSome
+    -- binary: the model of the wire walk into nested messages (tables regenerated from the
+    -- descriptor), with the library's verdict on the contents of known scalar fields
+    let tables : ProtoWire.Tables := (arr (field inp "tables")).map fun t =>
+      { lenient := bool (field t "lenient"),
+        entries := (arr (field t "entries")).map fun e =>
+          { num := nat (field e "num"), wts := (arr (field e "wt")).map nat, isMessage := bool (field e "msg"), sub := nat (field e "sub") } }
+    let us := ProtoWire.unknownsIn (data.length + 2) tables 0 data
+    let m := ProtoWire.strictDeep tables data
+    let mTop := ProtoWire.strictTop known data
     let mCls : String := if !parses then "malformed" else match m with
       | .ok => "ok" | .malformed => "malformed" | .unknown _ _ => "unknown"
-    let reportOk := match m with
-      | .unknown num wt => cls != "unknown" || (nat (field impl "num") == num && str (field impl "wt") == wtName wt)
-      | _ => true
-    -- a message the library parses has a well-formed top level
-    let consistent := !parses || walkOk
+    -- the reported field: the message's own first unknown field, else an unknown field of a nested message
+    let reported := (nat (field impl "num"), str (field impl "wt"))
+    let reportOk := cls != "unknown" || (match mTop with
+      | .unknown num wt => reported == (num, wtName wt)
+      | _ => (us.getD []).any (fun x => reported == (x.1, wtName x.2)))
+    -- a message the library parses is well formed at every depth the model looks at
+    let consistent := !parses || us.isSome
     let holds := holdsCore && (cls != "unknown" || !parses || reportOk)
-    { agree := cls == mCls && reportOk && consistent && (bool (field impl "unknownTop") == (parses && m != .ok)),
-      holds := holds, nontrivial := kind != "valid", cls := "bad:proto:" ++ kind,
+    { agree := cls == mCls && reportOk && consistent && (bool (field impl "unknownTop") == (parses && mTop != .ok))
+        && (!parses || unkAny == (m != .ok)),
+      holds := holds, nontrivial := kind != "valid", cls := "bad:proto:" ++ (if kind.startsWith "deep-unknown-" then "deep-unknown" else kind),
       model := toJson mCls,
       why := if holds then "" else
         (if accepted && parses && !bool (field impl "unknownTop") && unkAny then "F30: StrictProtoCodec accepts a message with an unknown field inside a nested message (only the top-level unknown-field set is looked at): " else "") ++
-        s!"strict proto codec on {kind} input {hex data}: outcome {cls} (field {nat (field impl "num")}), but the library says parses={parses}, unknown fields at the top level={bool (field impl "unknownTop")}, at any depth={unkAny}; top-level walk of the model: {reprStr m}" }
+        s!"strict proto codec on {kind} input {hex data}: outcome {cls} (field {nat (field impl "num")}), but the library says parses={parses}, unknown fields at the top level={bool (field impl "unknownTop")}, at any depth={unkAny}; wire walk of the model: {reprStr m}, unknown fields at any depth {reprStr (us.getD [])}" }
   | _ => bad ("C18: unknown op " ++ op)
 
 end ConfModel.Driver.C18
